@@ -31,6 +31,15 @@ partial def floatTexts : T → List (Nat × List Char)
 def dedupLast (kvs : List (List Char × T)) : List (List Char × T) :=
   kvs.foldl (fun acc p => if acc.any (fun q => q.1 == p.1) then acc.map (fun q => if q.1 == p.1 then p else q) else acc ++ [p]) []
 
+/-- maps are compared with their keys in byte order (the harness sorts the Go map's keys) -/
+def keyHex (k : List Char) : String := T.hex (String.ofList k).toUTF8.toList
+
+def insertKV (p : List Char × T) : List (List Char × T) → List (List Char × T)
+  | [] => [p]
+  | q :: rest => if keyHex p.1 ≤ keyHex q.1 then p :: q :: rest else q :: insertKV p rest
+
+def sortKVs (kvs : List (List Char × T)) : List (List Char × T) := kvs.foldr insertKV []
+
 partial def encV : V → T
   | .null => .node "null" []
   | .bool b => .node "bool" [T.ofBool b]
@@ -40,7 +49,7 @@ partial def encV : V → T
   | .sym s => .node "sym" [T.ofChars s]
   | .var s => .node "var" [T.ofChars s]
   | .list xs => .node "list" (xs.map encV)
-  | .map kvs => .node "map" ((dedupLast (kvs.map (fun p => (p.1, encV p.2)))).map (fun p => .node "kv" [T.ofChars p.1, p.2]))
+  | .map kvs => .node "map" ((sortKVs (dedupLast (kvs.map (fun p => (p.1, encV p.2))))).map (fun p => .node "kv" [T.ofChars p.1, p.2]))
 
 def tblOf (tb : Tables) : Tbl := tb.valueTbl
 
